@@ -994,6 +994,24 @@ func (c *provCtx) walk(v ssa.Value, idx int) {
 				return
 			}
 		}
+		if sites := localClosureCalls(x.Parent()); len(sites) > 0 {
+			// a function literal bound to a local and only ever called by name (`choose := func(candidate string…)`):
+			// the parameter stands for the arguments of those calls
+			pos := -1
+			for i, pp := range x.Parent().Params {
+				if pp == x {
+					pos = i
+				}
+			}
+			if pos >= 0 {
+				for _, cs := range sites {
+					if pos < len(cs.Call.Args) {
+						c.walk(cs.Call.Args[pos], idx)
+					}
+				}
+				return
+			}
+		}
 		c.emit(v, idx)
 	case *ssa.Call:
 		if callee := transparentCallee(x); callee != nil && c.depth < 4 {
@@ -1042,6 +1060,46 @@ func (c *provCtx) walk(v ssa.Value, idx int) {
 	default:
 		c.emit(v, idx)
 	}
+}
+
+// localClosureCalls: when fn is a function literal whose closure value is used for nothing but direct calls in the
+// enclosing function, the list of those calls (nil otherwise: a literal stored, passed on or deferred has unknown callers).
+func localClosureCalls(fn *ssa.Function) []*ssa.Call {
+	if fn == nil || fn.Parent() == nil {
+		return nil
+	}
+	var out []*ssa.Call
+	for _, b := range fn.Parent().Blocks {
+		for _, in := range b.Instrs {
+			mc, ok := in.(*ssa.MakeClosure)
+			var fv ssa.Value
+			if ok {
+				if mc.Fn != ssa.Value(fn) {
+					continue
+				}
+				fv = mc
+			} else {
+				continue
+			}
+			refs := fv.Referrers()
+			if refs == nil {
+				return nil
+			}
+			for _, r := range *refs {
+				switch u := r.(type) {
+				case *ssa.DebugRef:
+				case *ssa.Call:
+					if u.Call.Value != fv {
+						return nil // handed to another function
+					}
+					out = append(out, u)
+				default:
+					return nil
+				}
+			}
+		}
+	}
+	return out
 }
 
 // paramEnv binds the parameters of a callee to the caller's arguments while a wrapper call is being expanded
@@ -1502,7 +1560,23 @@ func vOrigins(preds ...OPred) VPred {
 	}
 }
 
-func vIs(w ssa.Value) VPred { return func(v ssa.Value) bool { return v == w } }
+func vIs(w ssa.Value) VPred {
+	return func(v ssa.Value) bool {
+		if v == w {
+			return true
+		}
+		// a parameter captured by a function literal lives in a cell: every use is a load of that cell
+		if prm, isP := w.(*ssa.Parameter); isP {
+			if ad, isLd := derefLoad(v); isLd {
+				if al, isAl := ad.(*ssa.Alloc); isAl && al.Parent() == prm.Parent() {
+					sts := storesToCell(al)
+					return len(sts) == 1 && sts[0].Val == w && sts[0].Parent() == prm.Parent()
+				}
+			}
+		}
+		return false
+	}
+}
 
 // vSame: the value is w, or both have exactly the same single origin.
 func vSame(w ssa.Value) VPred {
@@ -1570,6 +1644,8 @@ func applyCut(cut EdgePred, cond ssa.Value, br bool) bool {
 	if cut == nil {
 		return false
 	}
+	// (the parameter bindings a predicate sets up while it looks through a boolean helper end with the predicate)
+	defer func() { stripEnv = nil }()
 	if cut(cond, br) {
 		return true
 	}
